@@ -7,7 +7,7 @@ from fractions import Fraction
 import numpy as np
 import pyarrow as pa
 
-from .common import MIN_INT, atom_to_val, err_kind, mask_sx, sx, val_to_atom
+from .common import to_frac, MIN_INT, atom_to_val, err_kind, mask_sx, sx, val_to_atom
 
 # dtype classes: numpy dtype, model domain, whether logical nulls exist
 DT = {
@@ -42,8 +42,8 @@ def canon_array(arr, dom) -> list:
     arr = np.asarray(arr)
     k = arr.dtype.kind
     if k == "f":
-        return [None if np.isnan(x) else Fraction(float(x)) for x in arr.tolist()] if arr.dtype == np.float64 else [
-            None if np.isnan(x) else Fraction(float(x)) for x in arr.astype("float64").tolist()
+        return [None if np.isnan(x) else to_frac(x) for x in arr.tolist()] if arr.dtype == np.float64 else [
+            None if np.isnan(x) else to_frac(x) for x in arr.astype("float64").tolist()
         ]
     if k in "mM":
         ints = arr.view("int64").tolist()
